@@ -40,6 +40,7 @@ type Broker struct {
 	cancelIn  func()
 	cancelOut func()
 	bidirKey  string /* Bidirectional sentinel key. */
+	bidirCall any    /* Identifies the attached ConnectInOut call. */
 	wg        sync.WaitGroup
 	noMore    bool
 
@@ -134,6 +135,11 @@ func (b *Broker) ConnectOut(
 	)
 }
 
+// bidirCallKey is the context key under which ConnectInOut stores a value
+// unique to each call, so that the two sides of one call can be told from
+// the sides of another call.
+type bidirCallKey struct{}
+
 // ConnectInOut connects a bidirectional connection to a shell.  w and r may
 // be the same io.ReadWriter.
 func (b *Broker) ConnectInOut(
@@ -143,6 +149,9 @@ func (b *Broker) ConnectInOut(
 	w io.Writer,
 	r io.Reader,
 ) {
+	/* Both sides share the sentinel key; mark them as belonging to this
+	call so they can't be paired with another call's sides. */
+	ctx = context.WithValue(ctx, bidirCallKey{}, new(byte))
 	var wg sync.WaitGroup
 	wg.Add(2)
 	go func() {
@@ -269,6 +278,22 @@ func (b *Broker) connect(
 		}
 		return
 	}
+
+	/* Make sure both sides of a bidirectional connection come from the same
+	call to ConnectInOut. */
+	if "" != b.key && key == b.bidirKey &&
+		ctx.Value(bidirCallKey{}) != b.bidirCall {
+		sl.Error(LMAlreadyConnected)
+		b.Errorf(
+			addr,
+			"Rejected %s side of bidirectional connection, "+
+				"another bidirectional connection is "+
+				"already connected",
+			string(dir),
+		)
+		return
+	}
+	b.bidirCall = ctx.Value(bidirCallKey{})
 
 	/* Looks like we're all set. */
 	cctx, cancel := context.WithCancel(ctx)
